@@ -33,7 +33,7 @@ FUNCTIONS = [
 OPS = ["append", "insert", "delete_ix", "delete_mn", "update_ix", "update_mn", "replace_item", "setitem_arr", "setitem_item", "set_data"]
 BOUNDS = {
     "quick": {"history_len": 2, "starts": ["empty", "two"], "ops": OPS, "names": "'', 'A', 'B'", "task_budget_s": 600},
-    "thorough": {"history_len": 3, "starts": ["empty", "two"], "ops": OPS, "names": "'', 'A', 'B'", "task_budget_s": 3000},
+    "thorough": {"history_len": 3, "starts": ["empty", "two"], "ops": OPS, "names": "'', 'A', 'B'", "task_budget_s": 3000, "max_paths": 1000000},
 }
 ASSUMPTIONS = [
     "arrays are concrete 1-D float arrays of length 2 with distinct contents; 2-D arrays given to set_data are as wide as the curve list or one wider",
